@@ -55,4 +55,15 @@ func H_nodeset() {
 	vObserve("got", got)
 	vAssert(ended, "iterator-terminates")
 	vCheckNodeSet("expr", cur, attr, got)
+	if vHasParam("nodup") {
+		dup := false
+		for i := range got {
+			for j := 0; j < i; j++ {
+				if got[i] == got[j] {
+					dup = true
+				}
+			}
+		}
+		vAssert(!dup, "each-node-once")
+	}
 }
